@@ -207,7 +207,12 @@ impl Agg {
         self.max_threads = self.max_threads.max(u("max_threads"));
         if let Some(m) = v.get("extra").and_then(|x| x.as_object()) {
             for (k, x) in m {
-                *self.extra.entry(k.clone()).or_insert(0) += x.as_u64().unwrap_or(0);
+                let e = self.extra.entry(k.clone()).or_insert(0);
+                if k.starts_with("max_") || k.starts_with("largest_") {
+                    *e = (*e).max(x.as_u64().unwrap_or(0));
+                } else {
+                    *e += x.as_u64().unwrap_or(0);
+                }
             }
         }
         if let Some(m) = v.get("known").and_then(|x| x.as_object()) {
@@ -331,46 +336,62 @@ pub fn worker_main(args: &[String]) -> i32 {
     let t0 = Instant::now();
     let out = std::io::stdout();
     let mut code = 0;
-    for j in 0..count {
+    'outer: for j in 0..count {
         let index = first + j * stride;
         let seed = run_seed(base, &prop, index);
         CUR_INDEX.store(index, Ordering::Relaxed);
         CUR_SEED.store(seed, Ordering::Relaxed);
-        let Plan { program, setup, opts } = props::plan(&prop, &tier, seed);
-        let setup_json = setup_to_json(&setup);
-        let r = exec::execute(&program, setup, &opts);
-        let viol = props::judge(&prop, &program, &r, &opts, &mut js);
-        if agg.samples.is_empty() && r.outcome.switches_in_op > 0 {
-            agg.samples.push(json!({"index": index, "run_seed": seed, "program": program.to_json(), "clock": r.outcome.clock, "switches": r.outcome.switches,
-                "history": r.history.iter().filter(|h| !h.op.is_guard_op()).take(40).map(|h| format!("[{}..{}] t{} {:?} -> {:?}", h.inv, h.ret, h.thread, h.op, h.res)).collect::<Vec<_>>() }));
-        }
-        props::extra_stats(&prop, &program, &r, &mut agg);
-        agg.add_run(&program, &r);
-        if print_fp {
-            let mut o = out.lock();
-            let _ = writeln!(o, "F {} {:016x} {:016x} {}", index, r.outcome.fp, r.outcome.sched_fp, r.outcome.clock);
-        }
-        let mut unknown: Vec<&Violation> = Vec::new();
-        for v in &viol {
-            match match_known(&known, &prop, v) {
-                Some(k) => {
-                    *agg.known.entry(format!("{}|{}|{}", k.class, k.needle, k.text)).or_insert(0) += 1;
+        let mut dry = |p: &Plan| exec::execute(&p.program, props::clone_setup(&p.setup), &p.opts);
+        let plans = props::plans(&prop, &tier, seed, &mut dry);
+        for (sub, Plan { program, setup, opts }) in plans.into_iter().enumerate() {
+            let setup_json = setup_to_json(&setup);
+            let r = exec::execute(&program, setup, &opts);
+            let viol = props::judge(&prop, &program, &r, &opts, &mut js);
+            if agg.samples.is_empty() && (r.outcome.switches_in_op > 0 || opts.panic_at.is_some()) {
+                agg.samples.push(json!({"index": index, "sub": sub, "run_seed": seed, "program": program.to_json(), "clock": r.outcome.clock, "switches": r.outcome.switches,
+                    "panic_at": opts.panic_at,
+                    "history": r.history.iter().filter(|h| !h.op.is_guard_op()).take(40).map(|h| format!("[{}..{}] t{} {:?} -> {:?}", h.inv, h.ret, h.thread, h.op, h.res)).collect::<Vec<_>>() }));
+            }
+            props::extra_stats(&prop, &program, &r, &mut agg);
+            agg.add_run(&program, &r);
+            if opts.panic_at.is_some() && r.history.iter().any(|h| matches!(&h.res, exec::Res::Panic(m) | exec::Res::RetainPanic(_, m) if m.starts_with("injected"))) {
+                agg.faults[5] += 1;
+                agg.runs_with_fault[5] += 1;
+            }
+            if print_fp {
+                let mut o = out.lock();
+                let _ = writeln!(o, "F {} {:016x} {:016x} {}", index * 100_000 + sub as u64, r.outcome.fp, r.outcome.sched_fp, r.outcome.clock);
+            }
+            let mut unknown: Vec<&Violation> = Vec::new();
+            for v in &viol {
+                match match_known(&known, &prop, v) {
+                    Some(k) => {
+                        *agg.known.entry(format!("{}|{}|{}", k.class, k.needle, k.text)).or_insert(0) += 1;
+                    }
+                    None => unknown.push(v),
                 }
-                None => unknown.push(v),
+            }
+            if let Some(v) = unknown.first() {
+                let setup = setup_from_json(&setup_json, seed);
+                let rj = replay_json(&prop, &tier, index, seed, &v.class, &v.detail, &program, &setup, &opts, &r.outcome.trace);
+                let mut o = out.lock();
+                let _ = writeln!(o, "V {}", rj);
+                code = 1;
+                break 'outer;
+            }
+            if r.outcome.wedged {
+                // cannot continue in this process (only reachable with a known finding)
+                code = 4;
+                break 'outer;
             }
         }
-        if let Some(v) = unknown.first() {
-            let setup = setup_from_json(&setup_json, seed);
-            let rj = replay_json(&prop, &tier, index, seed, &v.class, &v.detail, &program, &setup, &opts, &r.outcome.trace);
-            let mut o = out.lock();
-            let _ = writeln!(o, "V {}", rj);
-            code = 1;
-            break;
-        }
-        if r.outcome.wedged {
-            // cannot continue in this process (only reachable with a known finding)
-            code = 4;
-            break;
+    }
+    for (k, n) in &js.extra {
+        let e = agg.extra.entry(k.clone()).or_insert(0);
+        if k.starts_with("max_") || k.starts_with("largest_") {
+            *e = (*e).max(*n);
+        } else {
+            *e += *n;
         }
     }
     agg.lin_keys = js.lin_keys as u64;
@@ -394,6 +415,33 @@ pub struct ReplayOutcome {
     pub clock: u64,
 }
 
+fn dump_run(p: &Program, r: &RunResult) {
+    let names = props::ev_names();
+    println!("--- program: {}", p.to_json());
+    println!("--- history");
+    for h in &r.history {
+        if !h.op.is_guard_op() {
+            println!("[{}..{}] t{} op{} {:?} -> {:?}", h.inv, h.ret, h.thread, h.idx, h.op, h.res);
+        }
+    }
+    println!("--- events");
+    for e in &r.outcome.events {
+        if !matches!(e.ev, flurry::verif::Ev::LockAcquired | flurry::verif::Ev::LockReleased | flurry::verif::Ev::Retire) {
+            println!("@{} t{} {} a={} b={}", e.clock, e.thread, names[e.ev as usize], e.a, if matches!(e.ev, flurry::verif::Ev::ResizeStarted | flurry::verif::Ev::Published) { 0 } else { e.b });
+        }
+    }
+    if let Some(rep) = &r.quiescent.inspect {
+        println!("--- quiescent: table_len={} size_ctl={} transfer_index={} count={} nodes={} bins list/tree/moved={}/{}/{}", rep.table_len, rep.size_ctl, rep.transfer_index, rep.count, rep.nodes, rep.bins_list, rep.bins_tree, rep.bins_moved);
+    }
+    println!("--- guards: {:?}", r.guards.iter().map(|g| (g.thread, g.enter, g.exit)).collect::<Vec<_>>());
+    for (i, x) in r.insts.iter().enumerate() {
+        if !x.is_key {
+            println!("val inst {} id {} parent {} created@{} by t{} drops={} drop@{} by t{} in_run={}", i, x.logical, x.parent as i32, x.created_clock, x.created_thread, x.drops, x.drop_clock, x.drop_thread, x.dropped_in_run);
+        }
+    }
+    println!("--- trace: {:?}", r.outcome.trace.iter().map(|t| (t.clock, t.kind, t.thread)).collect::<Vec<_>>());
+}
+
 fn run_replay_value(v: &Value, search: u64) -> Result<ReplayOutcome, String> {
     let prop = v.get("property").and_then(|x| x.as_str()).ok_or("no property")?.to_string();
     let seed = v.get("run_seed").and_then(|x| x.as_u64()).unwrap_or(0);
@@ -409,6 +457,9 @@ fn run_replay_value(v: &Value, search: u64) -> Result<ReplayOutcome, String> {
         setup.replay = trace.clone();
         let r = exec::execute(&program, setup, &opts);
         let viol = props::judge(&prop, &program, &r, &opts, &mut js);
+        if std::env::var("VERIF_DUMP").is_ok() {
+            dump_run(&program, &r);
+        }
         let hit = viol.iter().any(|x| want_class.is_empty() || x.class == want_class);
         if hit || search == 0 || r.outcome.wedged {
             return Ok(ReplayOutcome { violations: viol, trace: r.outcome.trace.clone(), clock: r.outcome.clock });
@@ -904,6 +955,7 @@ pub fn report_violation(prop: &str, v: Value) -> i32 {
     println!("{}", v["detail"].as_str().unwrap_or(""));
     let by_seed = v.get("by_seed").and_then(|x| x.as_bool()).unwrap_or(false);
     let min = if by_seed || std::env::var("VERIF_NO_MINIMISE").is_ok() { v.clone() } else { minimise(v.clone(), 90) };
+    let _ = std::fs::write(format!("{}/{}-{}-{}-unminimised.json", dir, prop, class, v["run_seed"].as_u64().unwrap_or(0)), serde_json::to_string_pretty(&v).unwrap());
     let path = format!("{}/{}-{}-{}.json", dir, prop, class, v["run_seed"].as_u64().unwrap_or(0));
     std::fs::write(&path, serde_json::to_string_pretty(&min).unwrap()).expect("write replay");
     // must reproduce in a fresh process
